@@ -9,7 +9,11 @@ func vpMiniFont(k int) []byte {
 	if k == 0 {
 		enc = "/Encoding 256 array\n0 1 255 {1 index exch /.notdef put} for\ndup 1 /Aacute put\ndup 65 /A put\ndup 194 /acute put\ndup 90 /Zdbl put\nreadonly def\n"
 	}
-	mid := "/PaintType 0 def\n/FontType 1 def\n/FontMatrix [0.001 0 0 0.001 0 0] def\n/FontBBox [0 0 0 0] def\ncurrentdict end\ndup /Private 15 dict dup begin\n/RD {string currentfile exch readstring pop} executeonly def\n/ND {def} executeonly def\n/NP {put} executeonly def\n/lenIV 0 def\n/Subrs 0 array\n/BlueValues [0 10] def\n/ForceBold false def\n/password 5839 def\n/MinFeature {16 16} def\nND\n2 index /CharStrings 5 dict dup begin\n"
+	private := ""
+	if k == 2 {
+		private = "/BlueShift # def\n/BlueFuzz # def\n/BlueScale 0.05 def\n/StdHW [4#] def\n/LanguageGroup 1 def\n/ExpansionFactor 0.5 def\n"
+	}
+	mid := "/PaintType 0 def\n/FontType 1 def\n/FontMatrix [0.001 0 0 0.001 0 0] def\n/FontBBox [0 0 0 0] def\ncurrentdict end\ndup /Private 15 dict dup begin\n/RD {string currentfile exch readstring pop} executeonly def\n/ND {def} executeonly def\n/NP {put} executeonly def\n/lenIV 0 def\n/Subrs 0 array\n/BlueValues [0 10] def\n" + private + "/ForceBold false def\n/password 5839 def\n/MinFeature {16 16} def\nND\n2 index /CharStrings 8 dict dup begin\n"
 	cs := func(name string, plain []byte) []byte {
 		code := vpCharstringEncryptRef(plain) // lenIV 0: no lead bytes, but still encrypted
 		var out []byte
@@ -30,8 +34,27 @@ func vpMiniFont(k int) []byte {
 	text = append(text, head...)
 	text = append(text, enc...)
 	text = append(text, mid...)
+	// the '#' place-holders of the private dictionary are symbolic decimal digits
+	n := 0
+	for i, c := range text {
+		if c == '#' {
+			d := vpByte("digit" + string(rune('0'+n)))
+			vpAssume(d >= '0' && d <= '9')
+			text[i] = d
+			n++
+		}
+	}
 	text = append(text, cs(".notdef", []byte{139, 239, 13, 14})...)
-	text = append(text, cs("A", []byte{139, 247, 92, 13, 139, 149, 21, 247, 92, 6, 9, 14})...)
+	if k == 2 {
+		// a base glyph of nine path commands (moveto, seven lines, closepath)
+		text = append(text, cs("A", []byte{139, 247, 92, 13, 139, 149, 21, 149, 6, 149, 7, 129, 6, 144, 7, 134, 6, 144, 7, 129, 6, 9, 14})...)
+		// 0 100 hsbw 20 10 rmoveto 10 vlineto closepath endchar
+		text = append(text, cs("grave", []byte{139, 239, 13, 159, 149, 21, 149, 7, 9, 14})...)
+		// 0 30 90 65 193 seac
+		text = append(text, cs("Agrave", []byte{139, 247, 92, 13, 139, 169, 229, 204, 247, 85, 12, 6})...)
+	} else {
+		text = append(text, cs("A", []byte{139, 247, 92, 13, 139, 149, 21, 247, 92, 6, 9, 14})...)
+	}
 	text = append(text, cs("acute", []byte{139, 239, 13, 149, 149, 21, 159, 6, 9, 14})...)
 	// 0 50 100 65 194 seac
 	text = append(text, cs("Aacute", []byte{139, 247, 92, 13, 139, 189, 239, 204, 247, 86, 12, 6})...)
@@ -41,6 +64,19 @@ func vpMiniFont(k int) []byte {
 	}
 	text = append(text, "end\nend\nreadonly put\nput\ndup /FontName get exch definefont pop\n"...)
 	return text
+}
+
+// vpMiniDigits returns the values of the symbolic digits of mini font 2.
+func vpMiniDigits(text []byte) (blueShift, blueFuzz int32, stdHW float64) {
+	at := func(key string) int {
+		for i := 0; i+len(key) <= len(text); i++ {
+			if string(text[i:i+len(key)]) == key {
+				return i + len(key)
+			}
+		}
+		return 0
+	}
+	return int32(text[at("/BlueShift ")] - '0'), int32(text[at("/BlueFuzz ")] - '0'), 40 + float64(text[at("/StdHW [4")]-'0')
 }
 
 func vpSameFont(a, b *Font) bool {
@@ -67,7 +103,7 @@ func vpSameFont(a, b *Font) bool {
 func VP_C17_type1_read() {
 	vpUnwind(20000)
 	vpStepLimit(30000000)
-	k := vpChoose("font", 2)
+	k := vpChoose("font", vpParam("FONTS", 3))
 	text := vpMiniFont(k)
 	w0 := vpGlobalWrites()
 	f1, e1 := Read(&vpReader{data: text, faultAt: -1, name: "a"})
@@ -95,6 +131,31 @@ func VP_C17_type1_read() {
 	}
 	vpAssert("monitor:reader-writes-no-package-level-state", vpGlobalWrites() == w0)
 	// what the file describes
+	if k == 2 {
+		a := f1.Glyphs["A"]
+		vpAssert("glyph-A-outline", a != nil && a.WidthX == 200 && len(a.Cmds) == 9 && a.Cmds[0].Args[1] == 10 && a.Cmds[1].Args[0] == 10 && a.Cmds[8].Op == OpClosePath)
+		// two composites on one base: each has the base outline followed by its own accent
+		ac, ag := f1.Glyphs["Aacute"], f1.Glyphs["Agrave"]
+		okAcute := ac != nil && ac.WidthX == 200 && len(ac.Cmds) == 12 && a != nil && len(a.Cmds) == 9 &&
+			ac.Cmds[9].Op == OpMoveTo && ac.Cmds[9].Args[0] == 60 && ac.Cmds[9].Args[1] == 110 &&
+			ac.Cmds[10].Op == OpLineTo && ac.Cmds[10].Args[0] == 80 && ac.Cmds[10].Args[1] == 110 && ac.Cmds[11].Op == OpClosePath
+		okGrave := ag != nil && ag.WidthX == 200 && len(ag.Cmds) == 12 &&
+			ag.Cmds[9].Op == OpMoveTo && ag.Cmds[9].Args[0] == 50 && ag.Cmds[9].Args[1] == 100 &&
+			ag.Cmds[10].Op == OpLineTo && ag.Cmds[10].Args[0] == 50 && ag.Cmds[10].Args[1] == 110 && ag.Cmds[11].Op == OpClosePath
+		vpAssert("composites-sharing-a-base-keep-their-own-accents", okAcute && okGrave)
+		if okAcute && okGrave {
+			for i := 0; i < 9; i++ {
+				vpAssert("composite-starts-with-the-base-outline", vpSameOp(ac.Cmds[i], a.Cmds[i]) && vpSameOp(ag.Cmds[i], a.Cmds[i]))
+			}
+		}
+		bs, bf, hw := vpMiniDigits(text)
+		p := f1.Private
+		vpAssert("explicit-private-values", p != nil && p.BlueShift == bs && p.BlueFuzz == bf && p.BlueScale == 0.05 &&
+			p.StdHW == hw && p.ForceBold == false && len(p.BlueValues) == 2)
+		vpAssert("info-strings", f1.FontName == "Mini" && f1.FullName == "Mini Font" && f1.Weight == "Bold" && f1.Version == "1.0")
+		vpCover("done")
+		return
+	}
 	a := f1.Glyphs["A"]
 	vpAssert("glyph-A-outline", a != nil && a.WidthX == 200 && len(a.Cmds) == 3 && a.Cmds[0].Args[1] == 10 && a.Cmds[1].Args[0] == 200)
 	ac := f1.Glyphs["Aacute"]
@@ -109,4 +170,16 @@ func VP_C17_type1_read() {
 	vpAssert("info-strings", f1.FontName == "Mini" && f1.FullName == "Mini Font" && f1.Weight == "Bold" && f1.Version == "1.0")
 	vpAssert("private-defaults", f1.Private != nil && f1.Private.BlueShift == 7 && f1.Private.BlueFuzz == 1 && len(f1.Private.BlueValues) == 2)
 	vpCover("done")
+}
+
+func vpSameOp(a, b GlyphOp) bool {
+	if a.Op != b.Op || len(a.Args) != len(b.Args) {
+		return false
+	}
+	for i := range a.Args {
+		if a.Args[i] != b.Args[i] {
+			return false
+		}
+	}
+	return true
 }
